@@ -6,12 +6,14 @@
    polynomials, the convergence theorem "local error C h^(p+1) + Lipschitz step map => global error
    K h^p", the time rescaling around CasADi's integrators, and — complete, local error bound proved by
    Taylor-Lagrange — order-1 convergence of expl_euler for every Lipschitz scalar ODE and order-4 convergence
-   of rk on the linear test equation (Proofs/EulerConv.v).  NOT proved: the local error bound of rk for a
-   general smooth f (multivariate Taylor expansion) and superconvergence 2d-1 / 2d of collocation; these
+   of rk on the linear test equation (Proofs/EulerConv.v, EulerConvVec.v), convergence (order >= 1) of rk for every
+   Lipschitz system and order 2 for scalar autonomous f (Proofs/RK4Conv.v).  NOT proved: the order-4 local error
+   bound of rk for a general smooth f (multivariate Taylor expansion to order 5) and superconvergence 2d-1 / 2d of
+   collocation; these
    enter C03_global_error_partial as the hypothesis on e and are measured numerically by the check. *)
 From Coq Require Import Reals ZArith QArith Qcanon List Lia Bool.
 From Coquelicot Require Import Coquelicot.
-From RV Require Import Base.Num Base.Vec Mech.Intg Spec.SpecDyn Inst Proofs.QcInst Proofs.ConvProofs Proofs.ConvReal Proofs.DerProofs Proofs.EulerConv Proofs.EulerConvVec.
+From RV Require Import Base.Num Base.Vec Mech.Intg Spec.SpecDyn Inst Proofs.QcInst Proofs.ConvProofs Proofs.ConvReal Proofs.DerProofs Proofs.EulerConv Proofs.EulerConvVec Proofs.RK4Conv.
 Import ListNotations.
 
 Theorem C03_rk4_order_conditions :
@@ -185,10 +187,61 @@ Theorem C03_rk4_linear_converges :
 Proof. exact rk4_linear_converges. Qed.
 Print Assumptions C03_rk4_linear_converges.
 
+(* rk for a GENERAL right-hand side (systems of any dimension, max norm): Lipschitz in the state (L) and in time
+   (Lt), |x'| <= B and |x''| <= K along the exact solution.  The error of every intermediate state of the model's
+   loop is at most C h with an explicit C: "the error vanishes as M grows" is proved for rk and every such ODE; the
+   classical order 4 itself is proved only on the linear test equation (above) and, at order 2, for scalar autonomous
+   f with bounded f', f'' (below). *)
+Theorem C03_rk4_converges_systems :
+  forall (sys : sysfun R) (n nq : nat) (x : nat -> R -> R) (t0 T L Lt K B : R) (M : nat),
+  (0 < T)%R -> (0 < L)%R -> (0 <= Lt)%R -> (0 <= K)%R -> (0 <= B)%R -> (0 < M)%nat ->
+  (forall X t, length X = n -> length (s_ode sys X t) = n) ->
+  (forall i t, (i < n)%nat -> (t0 <= t <= t0 + T)%R -> is_derive (x i) t (nth i (s_ode sys (xvec n x t) t) 0%R)) ->
+  (forall i t, (i < n)%nat -> (t0 <= t <= t0 + T)%R -> ex_derive_n (x i) 2 t) ->
+  (forall i t, (i < n)%nat -> (t0 <= t <= t0 + T)%R -> (Rabs (Derive_n (x i) 2 t) <= K)%R) ->
+  (forall i t, (i < n)%nat -> (t0 <= t <= t0 + T)%R -> (Rabs (nth i (s_ode sys (xvec n x t) t) 0) <= B)%R) ->
+  (forall i t X Y, (i < n)%nat -> (t0 <= t <= t0 + T)%R -> length X = n -> length Y = n ->
+     (Rabs (nth i (s_ode sys X t) 0 - nth i (s_ode sys Y t) 0) <= L * dist_max n X Y)%R) ->
+  (forall i t s X, (i < n)%nat -> (t0 <= t <= t0 + T)%R -> (t0 <= s <= t0 + T)%R -> length X = n ->
+     (Rabs (nth i (s_ode sys X t) 0 - nth i (s_ode sys X s) 0) <= Lt * Rabs (t - s))%R) ->
+  let h := (T / INR M)%R in
+  let Q := (T * L)%R in
+  let L' := (L * (1 + Q / 2 + Q ^ 2 / 6 + Q ^ 3 / 24))%R in
+  let C1 := ((L * B + Lt) * (1 / 2 + Q / 6 + Q ^ 2 / 24))%R in
+  let X0 := xvec n x t0 in
+  let st := @discrete_system R ROps (intg_rk sys) M nq X0 T t0 in
+  forall j i, (j <= M)%nat -> (i < n)%nat ->
+    (Rabs (nth i (nth j (ds_X st) X0) 0 - x i (t0 + INR j * h))
+     <= ((K / 2 + C1) * ((exp (T * L') - 1) / L')) * h)%R.
+Proof. exact rk4_converges_vec. Qed.
+Print Assumptions C03_rk4_converges_systems.
+
+Theorem C03_rk4_converges_order2_scalar_autonomous :
+  forall (f x : R -> R) (t0 T L F2 B K3 : R) (M : nat),
+  (0 < T)%R -> (0 < L)%R -> (0 <= F2)%R -> (0 <= B)%R -> (0 < M)%nat ->
+  (forall s, ex_derive f s) -> (forall s, ex_derive_n f 2 s) ->
+  (forall s, (Rabs (Derive f s) <= L)%R) -> (forall s, (Rabs (Derive_n f 2 s) <= F2)%R) ->
+  (forall t, is_derive x t (f (x t))) ->
+  (forall t, ex_derive_n x 3 t) ->
+  (forall t, (t0 <= t <= t0 + T)%R -> (Rabs (Derive_n x 3 t) <= K3)%R) ->
+  (forall t, (t0 <= t <= t0 + T)%R -> (Rabs (f (x t)) <= B)%R) ->
+  let h := (T / INR M)%R in let Q := (T * L)%R in
+  let L' := (L * (1 + Q / 2 + Q ^ 2 / 6 + Q ^ 3 / 24))%R in
+  let b2 := (1 + Q / 2)%R in let b3 := (1 + Q / 2 * b2)%R in
+  let C2 := ((F2 * B ^ 2 * (1 / 4 + b2 ^ 2 / 4 + b3 ^ 2 / 2) + L ^ 2 * B * (1 / 2 + b2 / 2)) / 6)%R in
+  let sys := mkSys (fun X (_ : R) => [f (nth 0 X 0%R)]) (fun _ _ => []) in
+  let st := @discrete_system R ROps (intg_rk sys) M 0 [x t0] T t0 in
+  forall j, (j <= M)%nat ->
+    (Rabs (nth 0 (nth j (ds_X st) [x t0]) 0 - x (t0 + INR j * h))
+     <= ((C2 + K3 / 6) * ((exp (T * L') - 1) / L')) * h ^ 2)%R.
+Proof. exact rk4_converges_order2. Qed.
+Print Assumptions C03_rk4_converges_order2_scalar_autonomous.
+
 (* non-vacuity of the two convergence theorems: x' = x with x = exp (Euler), x' = -x on [t0, t0+1] (rk) *)
 Example C03_convergence_nonvacuous : True /\ True.
 Proof. pose proof euler_converges_exp as _. pose proof rk4_linear_converges_decay as _.
-  pose proof euler_converges_rotation as _. pose proof euler_integral_rotation as _. split; exact I. Qed.
+  pose proof euler_converges_rotation as _. pose proof euler_integral_rotation as _.
+  pose proof rk4_converges_rotation as _. pose proof rk4_converges_order2_exp as _. split; exact I. Qed.
 
 (* non-vacuity: the error recursion's hypotheses are met by the exact error sequence of Euler on
    x' = 0 (e = 0), and the field statements have the instance Qc *)
